@@ -270,6 +270,18 @@ class Sequences(Part):
                 "numeric": ("4072", "04072")}[cls]
         if near[0] != near[1]:
             asg.append(near)
+        # a second secret that is itself a pseudonym the run issues (whatever line comes first): found by running that line alone
+        for li0 in range(len(SEQ_ALPHA)):
+            with seams.capture_logs():
+                fa0 = FileAnonymizer(anon_pwd=True, anon_ip=False, salt="saltForTest")
+                src, buf = SEQ_ALPHA[li0][0].format(A, B), io.StringIO()
+                try:
+                    fa0.anonymize_io(io.StringIO(src + "\n"), buf)
+                except Exception:
+                    continue
+            issued = [o.strip('";') for i, o in zip(src.split(), buf.getvalue().split()) if i != o and i.strip('";') == A]
+            if len(src.split()) == len(buf.getvalue().split()) and issued and issued[0] not in (A, B) and (A, issued[0]) not in asg:
+                asg.append((A, issued[0]))
         depth = bounds(self.tier, self.seed)["sequence_depth"]
         seen = set()
         hists = [h for d in range(1, depth + 1)
@@ -303,7 +315,7 @@ class Sequences(Part):
             for k in range(1, len(outs)):
                 if outs[0] != outs[k]:
                     res.violation("history-output-depends-on-secret|%s|%s%s" % (
-                        cls, ".".join(map(str, h)), "|near-equal-secrets" if k == 2 else ""),
+                        cls, ".".join(map(str, h)), "|near-equal-secrets" if asg[k] == near else "|secret-is-an-issued-pseudonym" if k >= 2 else ""),
                         "history %r with secrets %r: outputs %r vs (secrets %r) %r" % (
                             [SEQ_ALPHA[i][0] for i in h], asg[0], outs[0], asg[k], outs[k]),
                         {"cls": cls, "hist": list(h)})
